@@ -4,6 +4,7 @@ import (
 	"bufio"
 	"encoding/json"
 	"strconv"
+	"strings"
 
 	"github.com/hattya/go.sh/interp"
 )
@@ -58,6 +59,10 @@ func evalStore(name string) *interp.ExecEnv {
 	case "emptybad":
 		env.Set("x", "")
 		env.Set("y", "zz")
+	case "gobase":
+		// constants of Go, not of C
+		env.Set("x", "0b11")
+		env.Set("y", "1_000")
 	default:
 		env.Set("x", "-9223372036854775808")
 		env.Set("y", "-1")
@@ -74,7 +79,7 @@ func varOf(env *interp.ExecEnv, n string) varObs {
 		return varObs{"empty", bytes64(0)}
 	}
 	i, err := strconv.ParseInt(v.Value, 0, 64)
-	if err != nil {
+	if err != nil || strings.ContainsAny(v.Value, "_bBoO") && !strings.HasPrefix(strings.TrimLeft(v.Value, "+-"), "0x") && !strings.HasPrefix(strings.TrimLeft(v.Value, "+-"), "0X") {
 		return varObs{"bad", bytes64(0)}
 	}
 	return varObs{"num", bytes64(i)}
